@@ -12,18 +12,18 @@ SCOPE = {
  "C02": "bit-level Match encode/decode round trip for all 8 variants with symbolic fields (incl. the variable-length format switches and the top of the Far3Long range) and BitWriter/BitReader for 6 width triples; sequence decoding (open known finding), compressor-layer framing and PA-Zip are not claimed",
  "C04": "rank1/rank0/get/select1/select0/len/count_ones against the popcount-prefix definition for BitVector, IL256 (cache off), SE256/SE512 (tables off), Simple, MixedIL256, Few, trivial and the scalar/BMI2 bulk entry points, 1-2 symbolic words at block boundaries; select caches/tables ON, adaptive and vector kernels are not claimed",
  "C06": "SmallMap<u8,u8> in its inline mode (<= 4 entries): every history of 2 operations from {insert, remove, get, get_mut, contains_key} on symbolic keys and values, and every single operation from a map that already holds 2 or 3 entries, against an array model (returned values, len, lookup of an arbitrary key, iteration yields each live entry exactly once); ZiporaHashMap in all its storage strategies, GoldHashMap, the string-keyed maps and promotion of SmallMap to the large map do not finish within the caps (36 GB / 45 min for one insert+get) and are NOT claimed",
- "C07": "BumpAllocator for every size and 7 alignments, MemoryPool alloc/free/reuse, LockFreeMemoryPool refusal of huge sizes (quick); LockFreeMemoryPool size-class histories and FixedCapacityMemoryPool only in the thorough tier (24-36 GB); other pools not claimed",
- "C08": "Treiber stack of SecureMemoryPool: one operation of thread A with up to K complete operations of thread B at each of its 4 schedule points (fire-once nested interference), also under an allocator model that recycles freed node addresses (ABA); lock-free pool fast bins only in the thorough tier; weak memory and non-nested schedules are not claimed",
+ "C07": "BumpAllocator for every size and 7 alignments, MemoryPool alloc/free/reuse, LockFreeMemoryPool refusal of huge sizes; LockFreeMemoryPool size-class histories, FixedCapacityMemoryPool and the other pools do not decide within the caps (probe tier) and are not claimed",
+ "C08": "Treiber stack of SecureMemoryPool: one operation of thread A with up to K complete operations of thread B at each of its 4 schedule points (fire-once nested interference), also under an allocator model that recycles freed node addresses (ABA); lock-free pool fast bins take ~20 min per instance (thorough or probe tier); weak memory and non-nested schedules are not claimed",
  "C09": "UintVecMin0 set/get for 33 bit widths 0..64, refusal of out-of-range reads, ZipIntVec incl. the top of usize, IntVec small datasets (5 element types), UintVector push; constructors whose width depends on symbolic data, SortedUintVec and bit-packed UintVector builds are beyond the caps",
  "C10": "FastVec, ValVec32, FixedCircularQueue, AutoGrowCircularQueue against array models for 2-6 symbolic operations with drop counting, incl. wrapped rings, bulk ops, clone and clear; string vectors, MmapVec and longer histories are not claimed",
  "C11": "all 13 sorted-sequence set operations on 2x2/3x3 inputs vs their definition and each other, two-way merges, loser tree and heap multiway merge of <= 2 runs, radix sort with 4-bit digits on 2 elements, AdvancedRadixSort insertion path incl. string key ties; wide-digit radix passes, key-value sort and hierarchical merges only in the thorough tier",
- "C12": "DC3, DivSufSort-style, Larsson-Sadakane and adaptive construction on texts of <= 3 symbolic bytes, LCP, BWT and pattern search for 1-2 byte patterns; SA-IS and longer texts are beyond the caps",
+ "C12": "DC3, DivSufSort-style, Larsson-Sadakane and adaptive construction on texts of <= 3 symbolic bytes, LCP, BWT and pattern search for 1-2 byte patterns; SA-IS only on 4 concrete texts (regression witnesses of the repaired construction incl. its recursive branch); SA-IS on symbolic input and longer texts are beyond the caps",
  "C13": "VarInt for all u64/i64 and concatenated encodings, 7 alternative strategies for single values and short sequences per byte-width class (incl. values the wire formats cannot represent), DataInput/DataOutput primitives, length-prefixed data, endian conversion, tuple/Option/Vec serialisation",
  "C14": "bit-manipulation helpers on the scalar and the BMI2 tier (PDEP/PEXT/BZHI/CRC32 replaced by SDM-definition models) vs loop definitions for symbolic words, CRC32C vs the bitwise Castagnoli definition incl. incremental use, hex, base64 decoding of 4 characters, UTF-8 validation of 1-4 bytes vs core::str::from_utf8 on every dispatch arm, SimdMemOps on short slices; real vector kernels have no ISA model and are not claimed",
- "C15": "18 parsers (varint family, integer-codec variants, hex, base64, BitReader/decode_match, DataInput length prefixes, complex-type decoders, HuffmanTree::deserialize) on fully symbolic inputs of 0-12 bytes: no panic, overflow, out-of-bounds access or unbounded loop, and no allocation above 64*N+4096 bytes",
+ "C15": "21 parsers (varint family, integer-codec variants, hex, base64, BitReader/decode_match, DataInput length prefixes, complex-type decoders, Rc/Arc/Box decoders, HuffmanTree::deserialize of 1 byte) on fully symbolic inputs of 0-12 bytes: no panic, overflow, out-of-bounds access or unbounded loop, and every allocation <= 64*N + 4096 bytes; multi-entry Huffman tables, dictionary / LZ77 / PA-Zip decompressors, blob-store loaders and the FFI layer are beyond the caps",
  "C16": "VersionManager writer exclusion, counter consistency and min_version <= live token versions under fire-once interference at 8 schedule points (K = 2), LazyFreeList with ages in any order; token lifetime is an open known finding; weak memory and deeper nesting are not claimed",
  "C19": "MmapVec::<u32>::open on a 96-byte file image with a fully symbolic 80-byte header: whenever open succeeds every element the header vouches for lies inside the file; real file I/O, sync/crash ordering and the other file formats are not claimed",
- "C20": "decimal_strcmp/realnum_strcmp against exact values (operands <= 4 characters, and 20-digit operands at the u64 boundary), FastStr equality/order/prefix/suffix/find/hash vs the byte slice (<= 5x3 bytes), join, word and field splitting, SortedVecLexIterator with duplicates",
+ "C20": "decimal_strcmp/realnum_strcmp against exact values (operands <= 4 characters, and 20-digit operands at the u64 boundary), FastStr equality/order/prefix/suffix/find/hash vs the byte slice (<= 5x3 bytes, plus ==/cmp/compare/starts_with/common_prefix_len on 16-33-byte strings with symbolic bytes at 16/32-byte block edges), join, word and field splitting, SortedVecLexIterator with duplicates and empty strings; LineProcessor line reading, streaming iterators and Unicode case conversion are not claimed",
 }
 TEXT = {}
 DEFAULT_TEXT = ("Bounded model checking of the real Rust code: every registered harness calls zipora's own functions on symbolic "
